@@ -58,6 +58,11 @@ def appendFile (a : Members) (dest : List String) (src : String) : Members :=
 def appendAll (a : Members) (xs : List (List String × String)) : Members :=
   xs.foldl (fun a x => appendFile a x.1 x.2) a
 
+/-- `Archiver::archive`: the two metadata files are written first, from memory (`append_from_memory` records their
+    names in `added_files`), then every file found on disk goes through `append_file` -/
+def archiveMembers (metadata : List (List String)) (files : List (List String × String)) : Members :=
+  appendAll (metadata.map fun p => (p, "<memory>")) files
+
 /-! ## Entry-path validation on extraction -/
 
 inductive Comp where
